@@ -326,3 +326,13 @@ def tempering_exchange_is_metropolis_for_the_product_target(h, N, cp):
     ParallelTempering.swap / tempering_process code as C08's unit, asserted here for C01."""
     from harness import c08
     c08.swap_is_metropolis_exchange(h, N, cp)
+
+
+@unit("C01", quick=[dict(d=1, n=2, mass="scalar"), dict(d=2, n=1, mass="vector")], families=1, floor_fork=(-1, 1), cost=4)
+def hmc_trajectory_with_limits_is_a_reversible_proposal(h, d, n, mass):
+    """'proposals are reversible' for the Hamiltonian sampler with parameter limits: the trajectory map including the
+    folds at the limits, followed by a momentum flip, is its own inverse (otherwise exp(H0 - H) is not the
+    Metropolis-Hastings probability of the move that was proposed).  Same execution of the real bounded_leapfrog /
+    Bounds.reflect_momenta code as C07's unit, asserted here for C01"""
+    from harness import c07
+    c07.leapfrog_is_reversible(h, d, n, mass, True)
